@@ -123,6 +123,8 @@ struct World
     {
         std::unique_ptr<Spline> s;
         Problem<DIM> m;
+        // a reference to the exposed trajectory taken earlier and kept by the caller across later updates
+        const typename Spline::TrajectoryType *held = nullptr;
         bool live() const { return (bool)s; }
     };
     RunCtx &ctx;
@@ -190,6 +192,21 @@ struct World
         const Spline &a = *H.s;
         const Spline &b = *twin;
         const int N = H.m.N();
+        if (H.held)
+        {
+            // first of all, through the reference obtained before (no accessor is called again): the exposed
+            // trajectory is a member of the spline and must already describe the latest update
+            const auto &tb0 = b.getTrajectory();
+            SIM_CHECK(H.held->getNumSegments() == N && bitwise_equal_vec(H.held->getBreakpoints(), tb0.getBreakpoints()) &&
+                          bitwise_equal(H.held->getCoefficients(), tb0.getCoefficients()),
+                      "held_trajectory_reference_stale",
+                      when << ": a reference to getTrajectory() obtained earlier does not show the latest update (N=" << N << ", it reports "
+                           << H.held->getNumSegments() << " segments)");
+            double tq = tb0.getStartTime() + 0.41 * (tb0.getEndTime() - tb0.getStartTime());
+            SIM_CHECK(bitwise_equal(H.held->evaluate(tq, 1), tb0.evaluate(tq, 1)), "held_trajectory_reference_stale",
+                      when << ": evaluation through an earlier reference to the trajectory is stale");
+            ctx.count("oracle.held_reference");
+        }
         SIM_CHECK(a.isInitialized(), "initialized", when << ": spline not initialised after update");
         SIM_CHECK(a.getNumSegments() == N, "num_segments", when << ": getNumSegments()=" << a.getNumSegments() << " expected " << N);
         SIM_CHECK(bitwise_equal_vec(a.getTimeSegments(), H.m.T), "time_segments", when << ": stored durations differ from the latest input");
@@ -231,6 +248,7 @@ struct World
         else
         {
             H.s = prob::make_spline<Spline, DIM>(p);
+            H.held = nullptr;
             ctx.count("ops.construct");
         }
         ctx.count(by_points ? "probe.update_by_time_points" : "probe.update_by_durations");
@@ -374,7 +392,7 @@ struct World
                     for (int i = 0; i < N; ++i) p.tp[i + 1] = p.tp[i] + p.T[i];
                 };
                 rebuild();
-                if (!h[k].s) { h[k].s = prob::make_spline<Spline, DIM>(p); }
+                if (!h[k].s) { h[k].s = prob::make_spline<Spline, DIM>(p); h[k].held = nullptr; }
                 else prob::apply_update<Spline, DIM>(*h[k].s, p);
                 h[k].m = p;
                 check_twin(h[k], "same-span update (first)", false);
@@ -475,7 +493,8 @@ struct World
                 int k = pick(o.I(0));
                 if (k < 0) break;
                 Handle &H = h[k];
-                const auto &tr = H.s->getTrajectory();
+                const auto &tr = (o.I(3) & 64) ? H.s->getPPoly() : H.s->getTrajectory();
+                if (o.I(3) & 32) { H.held = &tr; ctx.count("probe.trajectory_reference_kept"); }
                 std::unique_ptr<Spline> twin = prob::make_spline<Spline, DIM>(H.m);
                 // time selection through the polynomial world's helper on the twin's breakpoints
                 typename polyw::World<typename Spline::TrajectoryType>::Model pm;
@@ -500,7 +519,7 @@ struct World
                 if (s < 0) break;
                 int dst = (int)(((o.I(1) % kHandles) + kHandles) % kHandles);
                 if (dst == s) dst = (dst + 1) % kHandles;
-                if (kind == OP_COPY || !h[dst].s) { h[dst].s.reset(new Spline(*h[s].s)); ctx.count("probe.copy_constructed"); }
+                if (kind == OP_COPY || !h[dst].s) { h[dst].s.reset(new Spline(*h[s].s)); h[dst].held = nullptr; ctx.count("probe.copy_constructed"); }
                 else { *h[dst].s = *h[s].s; ctx.count("probe.assigned_over_existing"); }
                 h[dst].m = h[s].m;
                 check_twin(h[dst], "after copy", true);
@@ -528,6 +547,7 @@ struct World
                     // move construction into a new object; the moved-from object is destroyed unused
                     std::unique_ptr<Spline> moved(new Spline(std::move(*h[s].s)));
                     h[s].s = std::move(moved);
+                    h[s].held = nullptr;
                     check_twin(h[s], "after move construction", true);
                     ctx.count("probe.move_constructed");
                     changed = true;
@@ -545,6 +565,7 @@ struct World
                 int k = pick(o.I(0));
                 if (k < 0 || live_n <= 1) break;
                 h[k].s.reset();
+                h[k].held = nullptr;
                 ctx.count("fault.src_destroy");
                 ctx.mark_nontrivial();
                 break;
@@ -605,6 +626,14 @@ struct World
                 for (size_t q = 0; q < g4.size(); ++q)
                     SIM_CHECK(same_bits(g4[q], al * g1[q]) || (g4[q] == 0.0 && al * g1[q] == 0.0), "propagate_linearity",
                               "component " << q << ": P(2^k g) is not 2^k P(g) exactly: " << g4[q] << " vs " << al * g1[q]);
+                // the same with a very small and a very large power of two: nothing may be treated as "numerically zero"
+                for (double sc : {std::ldexp(1.0, -60), std::ldexp(1.0, 40)})
+                {
+                    std::vector<double> g5 = GO::flat(H.s->propagateGrad(Mat(sc * c1), Eigen::VectorXd(sc * t1)));
+                    for (size_t q = 0; q < g5.size(); ++q)
+                        SIM_CHECK(same_bits(g5[q], sc * g1[q]) || (g5[q] == 0.0 && sc * g1[q] == 0.0), "propagate_linearity",
+                                  "component " << q << ": P(" << sc << " g) is not " << sc << " P(g) exactly: " << g5[q] << " vs " << sc * g1[q]);
+                }
                 ctx.count("oracle.linearity");
                 break;
             }
@@ -658,7 +687,7 @@ inline Plan gen_plan(uint64_t seed, uint64_t index, Tier tier, int profile)
         case OP_SAME_SPAN: o.i = {r.chance(0.75) ? 0 : (int64_t)r.below(kHandles), (int64_t)r.below(6), (int64_t)r.below(1u << 30), (int64_t)r.below(2)}; break;
         case OP_ENERGY: case OP_PARTIALS: case OP_COEFFS: o.i = {(int64_t)r.below(kHandles)}; break;
         case OP_ENERGY_GRAD: o.i = {(int64_t)r.below(kHandles), (int64_t)r.below(2)}; break;
-        case OP_EVAL: o.i = {(int64_t)r.below(kHandles), (int64_t)r.below(8), (int64_t)r.below(64), (int64_t)r.below(8)}; o.d = {r.unit()}; break;
+        case OP_EVAL: o.i = {(int64_t)r.below(kHandles), (int64_t)r.below(8), (int64_t)r.below(64), (int64_t)r.below(128)}; o.d = {r.unit()}; break;
         case OP_COPY: case OP_ASSIGN: o.i = {(int64_t)r.below(kHandles), (int64_t)r.below(kHandles)}; break;
         case OP_DESTROY: o.i = {(int64_t)r.below(kHandles)}; break;
         case OP_SELF_ASSIGN: o.i = {(int64_t)r.below(kHandles), (int64_t)r.below(4)}; break;
